@@ -1,6 +1,7 @@
 /* C18/C20 core / pinifile.c: p_ini_file_new -> p_ini_file_parse (concrete in-memory file through
  * models/stdio_model.c) -> sections / keys / typed getters -> p_ini_file_free under the failing allocator.
- * File (-DINIFILE=1): "[s]\na=1\n"; (-DINIFILE=2): "[s]\na=1\nl={1 2}\n[t]\nb=2\n".
+ * File (-DINIFILE=1): "[s]\na=1\n"; 2: "[s]\na=1\nl={1 2}\n[t]\nb=2\n"; 3: "[s]\na=1\n[t]\nb=2\n" (a second header follows a section
+ * that was linked into the file); 4: "[e]\n[t]\nb=2\n" (a second header follows an EMPTY section, which the parser frees).
  * Documented: p_ini_file_new NULL; getters return the default value / NULL.  p_ini_file_parse has no
  * failure value for memory shortage: sections/keys that could not be stored are silently missing
  * (accepted as degraded result); whatever is stored must be well formed, and nothing may leak. */
@@ -19,7 +20,89 @@
 #endif
 #define EXCLUDE_NTH(n) VASSUME(!C18_NTH_FAILS(n))
 #define DEMO_NTH(n)    VASSUME(C18_NTH_FAILS(n))
-#define KF_SITE(id_open, id_demo, n)   /* expanded by hand below: the preprocessor cannot test pasted names */
+#define X(n) EXCLUDE_NTH(n);
+/* Per file: text; sections listed without failure (NSEC) and the names that may be listed (SECB: second name, or a name that appears
+ * only after a failure); the section/key/value the readers ask for; keys of that section without failure (NKEYS), second key name
+ * (KEYB), key that may land in it when a later header line is lost (KEYX); requests of p_ini_file_parse (NPARSE); and the request
+ * numbers inside p_ini_file_parse that belong to the open known findings: list node after a parsed key (KF_KEY), list node for the
+ * previous section at a new header (KF_SEC), list node for the last section at end of file (KF_LAST; KF_LAST_FROM: additional
+ * positions in from-k-on mode - a section holds a key, every later line is dropped, the node for it fails at the end). */
+#if INIFILE == 1       /* 1 line copy, 2 name copy, 3-4 section, 5-7 copies, 8-10 parameter, 11 key node, 12 section node */
+#  define FTEXT "[s]\na=1\n"
+#  define NSEC 1
+#  define SECA "s"
+#  define SECB NULL
+#  define QSEC "s"
+#  define QKEY "a"
+#  define QVAL "1"
+#  define QINT 1
+#  define NKEYS 1
+#  define KEYB NULL
+#  define KEYX NULL
+#  define NPARSE 12
+#  define KF_KEY X(11)
+#  define KF_SEC
+#  define KF_LAST X(12)
+#  define KF_LAST_FROM
+#elif INIFILE == 2     /* 1-4 [s]; 5-11 a=1; 12-18 l={1 2}; 19-20 [t] copies, 21 node for s, 22-23 section t; 24-30 b=2; 31 node for t */
+#  define FTEXT "[s]\na=1\nl={1 2}\n[t]\nb=2\n"
+#  define NSEC 2
+#  define SECA "s"
+#  define SECB "t"
+#  define QSEC "s"
+#  define QKEY "a"
+#  define QVAL "1"
+#  define QINT 1
+#  define NKEYS 2
+#  define KEYB "l"
+#  define KEYX "b"
+#  define HAS_LIST 1
+#  define NPARSE 31
+#  define KF_KEY X(11) X(18) X(30)
+#  define KF_SEC X(21)
+#  define KF_LAST X(31)
+#  define KF_LAST_FROM X(12) X(13) X(14) X(15) X(16) X(17) X(18) X(19) X(20)
+#elif INIFILE == 3     /* 1-4 [s]; 5-11 a=1; 12-13 [t] copies, 14 node for s, 15-16 section t; 17-23 b=2; 24 node for t */
+#  define FTEXT "[s]\na=1\n[t]\nb=2\n"
+#  define NSEC 2
+#  define SECA "s"
+#  define SECB "t"
+#  define QSEC "s"
+#  define QKEY "a"
+#  define QVAL "1"
+#  define QINT 1
+#  define NKEYS 1
+#  define KEYB NULL
+#  define KEYX "b"
+#  define NPARSE 24
+#  define KF_KEY X(11) X(23)
+#  define KF_SEC X(14)
+#  define KF_LAST X(24)
+#  define KF_LAST_FROM X(12) X(13)
+#else                  /* 4: 1-4 [e]; 5-6 [t] copies (empty section e is freed), 7-8 section t; 9-15 b=2; 16 node for t */
+#  define FTEXT "[e]\n[t]\nb=2\n"
+#  define NSEC 1
+#  define SECA "t"
+#  define SECB "e"     /* listed instead of t when the copy of the "[t]" line fails: key b then lands in e */
+#  define QSEC "t"
+#  define QKEY "b"
+#  define QVAL "2"
+#  define QINT 2
+#  define NKEYS 1
+#  define KEYB NULL
+#  define KEYX NULL
+#  define NPARSE 16
+#  define KF_KEY X(15)
+#  define KF_SEC
+#  define KF_LAST X(16)
+#  define KF_LAST_FROM
+#endif
+#ifdef HAS_LIST
+#  define NLIST 5
+#else
+#  define NLIST 0
+#endif
+#define NSUCC (2 + NPARSE + 2 * NSEC + 2 * NKEYS + 3 + NLIST)
 
 static void put_file(const char *s) { int i; for (i = 0; s[i] != 0; i++) vm_file_data[i] = (unsigned char) s[i]; vm_file_len = i; }
 
@@ -36,13 +119,7 @@ static int free_strings(PList *l, const char *a, const char *b, const char *c, i
 
 static void script(void) {
   c18_begin();
-#if INIFILE == 1
-  put_file("[s]\na=1\n");
-#  define NSEC 1
-#else
-  put_file("[s]\na=1\nl={1 2}\n[t]\nb=2\n");
-#  define NSEC 2
-#endif
+  put_file(FTEXT);
 #ifdef INI_MISSING_CHOICE
   vm_file_missing = c18_choice;         /* C20: script variant 1 = the file cannot be opened */
 #endif
@@ -59,35 +136,26 @@ static void script(void) {
   }
   VASSERT(ini != NULL, "p_ini_file_new succeeds when no allocation fails");
 
-  /* ---- parse.  Request numbers inside the call, file 1: 1 line copy, 2 section-name copy, 3-4 section, 5 line copy, 6 key copy,
-   * 7 value copy, 8-10 parameter, 11 key list node, 12 section list node (end of file). */
+  /* ---- parse (request numbers inside the call: see the per-file table above) */
   f0 = vm_failed;
+#ifdef KF_OPEN_C18_ini_parse_key_node
+  KF_KEY
+#endif
+#ifdef KF_OPEN_C18_ini_parse_section_node
+  KF_SEC
+#endif
+#ifdef KF_OPEN_C18_ini_parse_last_section_node
+  KF_LAST
+  if (vm_fail_from) { KF_LAST_FROM }
+#endif
 #if INIFILE == 1
-#  ifdef KF_OPEN_C18_ini_parse_key_node
-  EXCLUDE_NTH(11);
-#  endif
-#  ifdef KF_OPEN_C18_ini_parse_last_section_node
-  EXCLUDE_NTH(12);
-#  endif
 #  ifdef KF_DEMO_C18_ini_parse_key_node
   DEMO_NTH(11);
 #  endif
 #  ifdef KF_DEMO_C18_ini_parse_last_section_node
   DEMO_NTH(12);
 #  endif
-#else   /* file 2: 1-4 [s]; 5-11 a=1; 12-18 l={1 2}; 19-20 [t] copies, 21 list node for section s, 22-23 section t; 24-30 b=2; 31 list node for section t */
-#  ifdef KF_OPEN_C18_ini_parse_key_node
-  EXCLUDE_NTH(11); EXCLUDE_NTH(18); EXCLUDE_NTH(30);
-#  endif
-#  ifdef KF_OPEN_C18_ini_parse_section_node
-  EXCLUDE_NTH(21);
-#  endif
-#  ifdef KF_OPEN_C18_ini_parse_last_section_node
-  EXCLUDE_NTH(31);
-  /* from-k-on mode: with k = 12..20 of the call, section s holds key a, every later line is dropped, and the request that
-   * fails at the end of the file is again the list node for the last section (here s) */
-  if (vm_fail_from) { EXCLUDE_NTH(12); EXCLUDE_NTH(13); EXCLUDE_NTH(14); EXCLUDE_NTH(15); EXCLUDE_NTH(16); EXCLUDE_NTH(17); EXCLUDE_NTH(18); EXCLUDE_NTH(19); EXCLUDE_NTH(20); }
-#  endif
+#elif INIFILE == 2
 #  ifdef KF_DEMO_C18_ini_parse_section_node
   DEMO_NTH(21);
 #  endif
@@ -124,7 +192,7 @@ static void script(void) {
     int nulls = 0;
     PList *secs = p_ini_file_sections(ini);
     int sfail = C18_FAILED_SINCE(f0);
-    int ns = free_strings(secs, "s", NSEC > 1 ? "t" : NULL, NULL, &nulls);
+    int ns = free_strings(secs, SECA, (NSEC > 1 || pfail) ? SECB : NULL, NULL, &nulls);
     VASSERT(ns <= NSEC, "not more sections than in the file");
     if (missing) VASSERT(ns == 0, "nothing listed for an unparsed object");
     else if (!pfail && !sfail) VASSERT(ns == NSEC && nulls == 0, "all sections listed when no allocation failed (also when an earlier attempt failed)");
@@ -134,7 +202,7 @@ static void script(void) {
   /* ---- keys of section s */
 #ifdef KF_OPEN_C18_ini_keys_node
   EXCLUDE_NTH(2);
-#  if INIFILE != 1
+#  if NKEYS > 1
   EXCLUDE_NTH(4);
 #  endif
 #endif
@@ -144,48 +212,48 @@ static void script(void) {
   for (int attempt = 0; attempt < 2; attempt++) {
     f0 = vm_failed;
     int nulls = 0;
-    PList *keys = p_ini_file_keys(ini, "s");
+    PList *keys = p_ini_file_keys(ini, QSEC);
     int kfail = C18_FAILED_SINCE(f0);
-    /* file 2: when the copy of the "[t]" line cannot be allocated the line is skipped and key b lands in section s (accepted as degraded) */
-    int nk = free_strings(keys, "a", INIFILE == 1 ? NULL : "l", (INIFILE != 1 && pfail) ? "b" : NULL, &nulls);
-    VASSERT(nk <= (INIFILE == 1 ? 1 : (pfail ? 3 : 2)), "not more keys than in the section");
+    /* files 2, 3: when the copy of the "[t]" line cannot be allocated the line is skipped and key b lands in section s (accepted as degraded) */
+    int nk = free_strings(keys, QKEY, KEYB, pfail ? KEYX : NULL, &nulls);
+    VASSERT(nk <= NKEYS + ((pfail && KEYX != NULL) ? 1 : 0), "not more keys than in the section");
     if (missing) VASSERT(nk == 0, "nothing listed for an unparsed object");
-    else if (!pfail && !kfail) VASSERT(nk == (INIFILE == 1 ? 1 : 2) && nulls == 0, "all keys listed when no allocation failed (also when an earlier attempt failed)");
+    else if (!pfail && !kfail) VASSERT(nk == NKEYS && nulls == 0, "all keys listed when no allocation failed (also when an earlier attempt failed)");
     if (!kfail) { if (attempt == 1) retried_ok = 1; break; }
   }
 
   /* ---- typed getters */
-  pboolean has_a = p_ini_file_is_key_exists(ini, "s", "a");
+  pboolean has_a = p_ini_file_is_key_exists(ini, QSEC, QKEY);
   if (missing) VASSERT(has_a == FALSE, "no key in an unparsed object");
   else if (!pfail) VASSERT(has_a == TRUE, "key present when the parse met no allocation failure");
   int live0 = vm_live;
   for (int attempt = 0; attempt < 2; attempt++) {
     f0 = vm_failed;
-    pchar *str = p_ini_file_parameter_string(ini, "s", "a", "dflt");
+    pchar *str = p_ini_file_parameter_string(ini, QSEC, QKEY, "dflt");
     int gfail = C18_FAILED_SINCE(f0);
     if (gfail) VASSERT(str == NULL || c18_streq(str, "dflt"), "p_ini_file_parameter_string returns NULL or the default when a copy cannot be allocated");
-    else VASSERT(str != NULL && c18_streq(str, has_a ? "1" : "dflt"), "stored value, or the default for a key that was not stored (also when an earlier attempt failed)");
+    else VASSERT(str != NULL && c18_streq(str, has_a ? QVAL : "dflt"), "stored value, or the default for a key that was not stored (also when an earlier attempt failed)");
     p_free(str);
     VASSERT(vm_live == live0, "string getter: everything handed out was released");
     if (!gfail) { if (attempt == 1) retried_ok = 1; break; }
   }
   for (int attempt = 0; attempt < 2; attempt++) {
     f0 = vm_failed;
-    pint iv = p_ini_file_parameter_int(ini, "s", "a", 7);
+    pint iv = p_ini_file_parameter_int(ini, QSEC, QKEY, 7);
     int gfail = C18_FAILED_SINCE(f0);
-    VASSERT(iv == ((has_a && !gfail) ? 1 : 7), "integer value, or the default when the key is missing or the lookup copy cannot be allocated");
+    VASSERT(iv == ((has_a && !gfail) ? QINT : 7), "integer value, or the default when the key is missing or the lookup copy cannot be allocated");
     VASSERT(vm_live == live0, "integer getter leaves nothing allocated");
     if (!gfail) { if (attempt == 1) retried_ok = 1; break; }
   }
   for (int attempt = 0; attempt < 2; attempt++) {
     f0 = vm_failed;
-    pboolean bv = p_ini_file_parameter_boolean(ini, "s", "a", FALSE);
+    pboolean bv = p_ini_file_parameter_boolean(ini, QSEC, QKEY, FALSE);
     int gfail = C18_FAILED_SINCE(f0);
     VASSERT(bv == ((has_a && !gfail) ? TRUE : FALSE), "boolean value or default");
     VASSERT(vm_live == live0, "boolean getter leaves nothing allocated");
     if (!gfail) { if (attempt == 1) retried_ok = 1; break; }
   }
-#if INIFILE != 1
+#ifdef HAS_LIST
 #  ifdef KF_OPEN_C18_ini_list_node
   EXCLUDE_NTH(3); EXCLUDE_NTH(5);
 #  endif
@@ -210,12 +278,10 @@ static void script(void) {
 #endif
 
   p_ini_file_free(ini);
-#if INIFILE == 1
-  c18_end(2 + 12 + 2 + 2 + 3);
-#elif defined(KF_OPEN_C18_ini_list_node)
-  c18_end2(2 + 31 + 4 + 4 + 3 + 5, 2 + 31 + 4 + 4 + 3 + 4);     /* the very last request (list node of the 2nd item) is a known-finding class */
+#if defined(HAS_LIST) && defined(KF_OPEN_C18_ini_list_node)
+  c18_end2(NSUCC, NSUCC - 1);     /* the very last request (list node of the 2nd item) is a known-finding class */
 #else
-  c18_end(2 + 31 + 4 + 4 + 3 + 5);
+  c18_end(NSUCC);
 #endif
 #if !defined(KF_DEMO) && K_LO == 0
   if (!pfail && has_a) VWITNESS("file parsed completely");
